@@ -151,6 +151,11 @@ Section Proofs.
     - intros dv H. discriminate.
   Qed.
 
+  Lemma inv_inv_weak h : inv h -> inv_weak h.
+  Proof.
+    intros [Hv [Hc Hl]]. split; [exact Hv|]. split; [exact Hc|]. intros dv H. destruct (Hl dv H). lia.
+  Qed.
+
   (* ---------------- sort_depths ---------------- *)
   Lemma sort_depths_inv h : inv_weak h -> inv (sort_depths h).
   Proof.
@@ -262,15 +267,17 @@ Section Proofs.
       apply map_nth_error. exact He.
   Qed.
 
-  Lemma add_depth_inv h name depth values tol : inv h -> depth <> [] -> inv_weak (add_depth pos h name depth values tol).
+  Lemma add_depth_inv h name depth values tol : inv_weak h -> depth <> [] -> inv_weak (add_depth pos h name depth values tol).
   Proof.
     intros [Hv [Hc Hl]] Hne. unfold add_depth. destruct (h_depth h) as [dv|] eqn:Ed.
-    - destruct (Hl dv eq_refl) as [L1 L2]. split; [|split].
+    - destruct (Hl dv eq_refl) as [L1 L2].
+      assert (Lp : length (pad (length (h_verts h)) dv) = length (h_verts h)) by (apply pad_length; exact L2).
+      split; [|split].
       + intros dv' i d H Hi. simpl in H. inversion H; subst dv'. simpl.
-        apply appended_depth_at with (dv := dv); [exact L2| |exact Hi].
-        intros j e Hj. apply (Hv dv j e Ed Hj).
+        apply appended_depth_at with (dv := pad (length (h_verts h)) dv); [exact Lp| |exact Hi].
+        intros j e Hj. apply pad_nth_some in Hj. apply (Hv dv j e Ed Hj).
       + apply cells_join_extend with (h := h); try reflexivity; [exact Hc|]. intros a v Ha. apply nth_error_app_keep. exact Ha.
-      + intros dv' H. simpl in H. inversion H; subst dv'. simpl. rewrite !app_length, !map_length. lia.
+      + intros dv' H. simpl in H. inversion H; subst dv'. simpl. rewrite !app_length, !map_length, Lp. lia.
     - split; [|split].
       + intros dv' i d H Hi. simpl in H. inversion H; subst dv'. simpl.
         apply appended_depth_at with (dv := repeat None (length (h_verts h))); [apply repeat_length| |exact Hi].
@@ -354,7 +361,7 @@ Section Proofs.
   Lemma pair_up_length g (fts : list (Q * Q)) : length (pair_up (map g (flatten_ft fts))) = length fts.
   Proof. rewrite pair_up_flat. apply map_length. Qed.
 
-  Lemma add_interval_inv h name fts values tol : inv h -> inv_weak (add_interval pos h name fts values tol).
+  Lemma add_interval_inv h name fts values tol : inv_weak h -> inv_weak (add_interval pos h name fts values tol).
   Proof.
     intros [Hv [Hc Hl]]. unfold add_interval. destruct (h_ft h) as [[froms tos]|] eqn:Eft.
     - (* later interval call *)
@@ -386,12 +393,33 @@ Section Proofs.
   Definition op_ok (op : hop) : Prop :=
     match op with AddDepth _ depth _ _ => depth <> [] | AddInterval _ _ _ _ => True end.
 
-  Lemma hstep_inv h op : inv h -> op_ok op -> inv (hstep pos h op).
+  Lemma happly_inv h op : inv_weak h -> op_ok op -> inv_weak (happly pos h op).
   Proof.
     intros H Hop. destruct op as [k d v tol|k ft v tol]; simpl.
-    - apply sort_depths_inv. apply add_depth_inv; assumption.
-    - apply sort_depths_inv. apply add_interval_inv; assumption.
+    - apply add_depth_inv; assumption.
+    - apply add_interval_inv; assumption.
   Qed.
+
+  Lemma happly_fold_inv : forall subs h, inv_weak h -> Forall op_ok subs -> inv_weak (fold_left (happly pos) subs h).
+  Proof.
+    induction subs as [|op r IH]; intros h H Hs; [exact H|].
+    inversion Hs as [|? ? Hop Hr]; subst. simpl. apply IH; [apply happly_inv; assumption|exact Hr].
+  Qed.
+
+  (* one add_data call with any number of data sets *)
+  Lemma hcall_inv h subs : inv h -> Forall op_ok subs -> inv (hcall pos h subs).
+  Proof.
+    intros H Hs. unfold hcall. apply sort_depths_inv. apply happly_fold_inv; [apply inv_inv_weak; exact H|exact Hs].
+  Qed.
+
+  Lemma hrunc_inv : forall calls h, inv h -> Forall (Forall op_ok) calls -> inv (hrunc pos h calls).
+  Proof.
+    induction calls as [|c r IH]; intros h H Hc; [exact H|].
+    inversion Hc as [|? ? Hs Hr]; subst. simpl. apply IH; [apply hcall_inv; assumption|exact Hr].
+  Qed.
+
+  Lemma hstep_inv h op : inv h -> op_ok op -> inv (hstep pos h op).
+  Proof. intros H Hop. apply hcall_inv; [exact H|constructor; [exact Hop|constructor]]. Qed.
 
   Lemma hrun_inv : forall ops h, inv h -> Forall op_ok ops -> inv (hrun pos h ops).
   Proof.
@@ -429,12 +457,12 @@ Section Proofs.
   Qed.
 
   Lemma attached_add_depth h k depth values tol' name d v tol :
-    inv h -> attached h name d v tol -> attached (add_depth pos h k depth values tol') name d v tol.
+    attached h name d v tol -> attached (add_depth pos h k depth values tol') name d v tol.
   Proof.
-    intros [_ [_ Hl]] [i [dv [vals [dd [Hd [Hi [Hc [Hin [Hv Hlt]]]]]]]]].
+    intros [i [dv [vals [dd [Hd [Hi [Hc [Hin [Hv Hlt]]]]]]]]].
     unfold add_depth. rewrite Hd.
-    exists i. eexists. exists (pad (length (h_verts h ++ map pos (unmatched (match_values dv depth tol') depth))) vals), dd.
-    simpl. split; [reflexivity|]. split; [apply onth_app_some; exact Hi|]. split; [exact Hc|].
+    exists i. eexists. eexists. exists dd.
+    simpl. split; [reflexivity|]. split; [apply onth_app_some; rewrite onth_pad; exact Hi|]. split; [exact Hc|].
     split; [apply in_or_app; left; apply pad_all_In; exact Hin|]. split; [rewrite onth_pad; exact Hv|].
     rewrite app_length. lia.
   Qed.
@@ -447,13 +475,33 @@ Section Proofs.
       (exists i, dv, vals, dd; simpl; repeat split; try assumption; rewrite app_length; lia).
   Qed.
 
-  (* a value that is attached stays attached through every later add_data call *)
-  Lemma attached_hstep h op name d v tol : inv h -> op_ok op -> attached h name d v tol -> attached (hstep pos h op) name d v tol.
+  Lemma attached_happly h op name d v tol : attached h name d v tol -> attached (happly pos h op) name d v tol.
   Proof.
-    intros Hinv Hop Ha. destruct op as [k dp vl tl|k ft vl tl]; simpl.
-    - apply attached_sort; [apply add_depth_inv; assumption|]. apply attached_add_depth; assumption.
-    - apply attached_sort; [apply add_interval_inv; assumption|]. apply attached_add_interval; assumption.
+    intros Ha. destruct op as [k dp vl tl|k ft vl tl]; simpl; [apply attached_add_depth|apply attached_add_interval]; exact Ha.
   Qed.
+
+  Lemma attached_fold : forall subs h name d v tol, attached h name d v tol -> attached (fold_left (happly pos) subs h) name d v tol.
+  Proof.
+    induction subs as [|op r IH]; intros h name d v tol Ha; [exact Ha|]. simpl. apply IH. apply attached_happly. exact Ha.
+  Qed.
+
+  (* a value that is attached stays attached through every later add_data call (with any number of data sets) *)
+  Lemma attached_hcall h subs name d v tol : inv h -> Forall op_ok subs -> attached h name d v tol -> attached (hcall pos h subs) name d v tol.
+  Proof.
+    intros Hinv Hs Ha. unfold hcall. apply attached_sort; [apply happly_fold_inv; [apply inv_inv_weak; exact Hinv|exact Hs]|].
+    apply attached_fold. exact Ha.
+  Qed.
+
+  Lemma attached_hrunc : forall calls h name d v tol, inv h -> Forall (Forall op_ok) calls ->
+    attached h name d v tol -> attached (hrunc pos h calls) name d v tol.
+  Proof.
+    induction calls as [|c r IH]; intros h name d v tol Hinv Hc Ha; [exact Ha|].
+    inversion Hc as [|? ? Hs Hr]; subst. simpl.
+    apply IH; [apply hcall_inv; assumption|exact Hr|apply attached_hcall; assumption].
+  Qed.
+
+  Lemma attached_hstep h op name d v tol : inv h -> op_ok op -> attached h name d v tol -> attached (hstep pos h op) name d v tol.
+  Proof. intros Hinv Hop Ha. apply attached_hcall; [exact Hinv|constructor; [exact Hop|constructor]|exact Ha]. Qed.
 
   Lemma attached_hrun : forall ops h name d v tol, inv h -> Forall op_ok ops ->
     attached h name d v tol -> attached (hrun pos h ops) name d v tol.
@@ -564,18 +612,20 @@ Section Proofs.
   Qed.
 
   Definition no_collision (h : hole) (depth : list Q) (tol : Q) : Prop :=
-    match h_depth h with None => True | Some dv => NoDup (map fst (match_values dv depth tol)) end.
+    match h_depth h with None => True | Some dv => NoDup (map fst (match_values (pad (length (h_verts h)) dv) depth tol)) end.
 
   (* one validate_depth_data call attaches every value to a vertex within tol of its depth, provided no two entries of
      the call collocate with the same existing vertex *)
   Lemma add_depth_attached h name depth values tol j d v :
-    inv h -> length values = length depth -> (0 < tol)%Q -> no_collision h depth tol ->
+    inv_weak h -> length values = length depth -> (0 < tol)%Q -> no_collision h depth tol ->
     nth_error depth j = Some d -> nth_error values j = Some (Some v) ->
     attached (add_depth pos h name depth values tol) name d v tol.
   Proof.
     intros [_ [_ Hl]] Hlen Htol Hnc Hd Hv. unfold add_depth, no_collision in *.
-    destruct (h_depth h) as [dv|] eqn:Ed.
-    - destruct (Hl dv eq_refl) as [L1 L2].
+    destruct (h_depth h) as [dv0|] eqn:Ed.
+    - destruct (Hl dv0 eq_refl) as [L1 L2'].
+      set (dv := pad (length (h_verts h)) dv0) in *.
+      assert (L2 : length dv = length (h_verts h)) by (apply pad_length; exact L2').
       set (m := match_values dv depth tol) in *.
       destruct (mapped m j) eqn:Em.
       + (* collocated with an existing vertex i *)
@@ -612,8 +662,26 @@ Section Proofs.
         * rewrite app_length, map_length. assert (j < length depth) by (apply nth_error_Some; congruence). lia.
   Qed.
 
-  (* the whole statement for histories: the values of a collision-free call are attached after the call and after
-     every later call *)
+  (* the whole statement for histories of add_data calls with any number of data sets: the values of a depth data
+     set none of whose entries collide are attached after its call and after every later call *)
+  Lemma values_stay_attached_calls calls pre post name depth values tol j d v later :
+    Forall (Forall op_ok) calls -> Forall op_ok pre -> Forall op_ok post -> Forall (Forall op_ok) later ->
+    depth <> [] -> length values = length depth -> (0 < tol)%Q ->
+    no_collision (fold_left (happly pos) pre (hrunc pos empty_hole calls)) depth tol ->
+    nth_error depth j = Some d -> nth_error values j = Some (Some v) ->
+    attached (hrunc pos (hcall pos (hrunc pos empty_hole calls) (pre ++ AddDepth name depth values tol :: post)) later) name d v tol.
+  Proof.
+    intros Hc Hpre Hpost Hlater Hne Hlen Htol Hnc Hd Hv.
+    assert (Hinv : inv (hrunc pos empty_hole calls)) by (apply hrunc_inv; [apply inv_empty|exact Hc]).
+    assert (Hall : Forall op_ok (pre ++ AddDepth name depth values tol :: post)).
+    { apply Forall_app. split; [exact Hpre|]. constructor; [exact Hne|exact Hpost]. }
+    apply attached_hrunc; [apply hcall_inv; assumption|exact Hlater|].
+    unfold hcall. apply attached_sort; [apply happly_fold_inv; [apply inv_inv_weak; exact Hinv|exact Hall]|].
+    rewrite fold_left_app. simpl. apply attached_fold.
+    apply add_depth_attached with (j := j); try assumption.
+    apply happly_fold_inv; [apply inv_inv_weak; exact Hinv|exact Hpre].
+  Qed.
+
   Lemma values_stay_attached ops name depth values tol j d v later :
     Forall op_ok ops -> Forall op_ok later -> depth <> [] -> length values = length depth -> (0 < tol)%Q ->
     no_collision (hrun pos empty_hole ops) depth tol ->
@@ -623,8 +691,8 @@ Section Proofs.
     intros Hops Hlater Hne Hlen Htol Hnc Hd Hv.
     assert (Hinv : inv (hrun pos empty_hole ops)) by (apply hrun_inv; [apply inv_empty|exact Hops]).
     apply attached_hrun; [apply hstep_inv; [exact Hinv|exact Hne]|exact Hlater|].
-    simpl. apply attached_sort; [apply add_depth_inv; assumption|].
-    apply add_depth_attached with (j := j); assumption.
+    unfold hstep, hcall. simpl. apply attached_sort; [apply add_depth_inv; [apply inv_inv_weak; exact Hinv|exact Hne]|].
+    apply add_depth_attached with (j := j); try assumption. apply inv_inv_weak. exact Hinv.
   Qed.
 End Proofs.
 
